@@ -271,6 +271,9 @@ func c03R6(r *Report) {
 			}
 		}
 		r.Decide("callgraph", "(*M.Proxy).handleLoop: no process-terminating construct in the static call closure", n == 0, fmt.Sprintf("%d module functions reachable through static calls, closures, go and defer; none contains panic, os.Exit, log.Fatal*, log.Panic*, runtime.Goexit", len(fs)), "see the individual constructs")
+		// the "last element" idiom on a value that may be empty is the commonest way for
+		// input to raise a run-time panic here (host names, header values)
+		lastIndexRule(r, "", "mitm", "proxyutil")
 		// no recover exists, which is why the rule matters; note if one appears
 		for _, f := range fs {
 			for _, c := range calls(f, "builtin.recover") {
